@@ -80,16 +80,16 @@ pub mod rnd {
     pub static mut LEN: usize = 0;
     pub static mut POS: usize = 0;
     /// Queue `bytes` as the next values returned by `getrandom::fill`.
+    /// (slice copies, no loops: the harness-wide unwind bound does not have to cover them)
     pub fn preload(bytes: &[u8]) {
-        let mut i = 0;
-        while i < bytes.len() {
-            unsafe {
-                if LEN < 64 {
-                    BUF[LEN] = bytes[i];
-                    LEN += 1;
-                }
+        unsafe {
+            let n = bytes.len();
+            if LEN + n <= 64 {
+                BUF[LEN..LEN + n].copy_from_slice(bytes);
+                LEN += n;
+            } else {
+                super::cut();
             }
-            i += 1;
         }
         #[cfg(verif_replay)]
         unsafe {
@@ -99,18 +99,14 @@ pub mod rnd {
     }
     /// `getrandom::fill` stand-in: pops preloaded bytes; running dry is a flagged cut.
     pub fn fill(dest: &mut [u8]) -> Result<(), getrandom::Error> {
-        let mut i = 0;
-        while i < dest.len() {
-            unsafe {
-                if POS < LEN {
-                    dest[i] = BUF[POS];
-                    POS += 1;
-                } else {
-                    super::cut();
-                    dest[i] = 0x42;
-                }
+        unsafe {
+            let n = dest.len();
+            if POS + n <= LEN {
+                dest.copy_from_slice(&BUF[POS..POS + n]);
+                POS += n;
+            } else {
+                super::cut();
             }
-            i += 1;
         }
         Ok(())
     }
